@@ -346,3 +346,6 @@ mod tests {
         }
     }
 }
+
+#[cfg(all(taffy_verif, feature = "grid"))]
+pub use self::grid::verif_c09;
